@@ -25,6 +25,7 @@ type genCtx struct {
 	prec         uint64 // droplet multiple for valid amounts (10^(6-prec))
 	burn         uint64
 	bigCoins     bool
+	futureTime   uint64
 	avoidPending bool
 	conflictPct  int
 	spent        []cipher.SHA256    // inputs of accepted blocks (for re-spend attempts)
@@ -233,6 +234,20 @@ func (g *genCtx) makeTxn(n *node, kind string) (coin.Transaction, bool) {
 		outHours = hours + 1 + uint64(r.Intn(5))
 	case "hours+1":
 		outHours = hours + 1
+	case "hours-future":
+		// hours the inputs will only have accrued at the NEW block's time (g.futureTime), not at the
+		// previous block's time: must be rejected (C03 time base)
+		var fh uint64
+		for _, u := range ins {
+			if h, err := u.CoinHours(g.futureTime); err == nil {
+				fh += h
+			}
+		}
+		if fh > hours+1 {
+			outHours = hours + 1 + r.U64()%(fh-hours-1)
+		} else {
+			outHours = hours + 1
+		}
 	}
 	hsplit := make([]uint64, len(amounts))
 	remH := outHours
@@ -704,10 +719,19 @@ func (g *genCtx) forged(P, F *node) {
 	r := g.r
 	var txns coin.Transactions
 	n := 1 + r.Intn(4)
+	when := g.nextWhen()
+	if r.Chance(40) {
+		hb, _ := P.v.GetHeadBlock()
+		when = hb.Head.Time + 3600*uint64(1+r.Intn(5000)) // hours of accrual between the two blocks
+	}
+	g.futureTime = when
 	for i := 0; i < n; i++ {
 		kind := ""
 		if r.Chance(30) {
 			kind = badKinds[r.Intn(len(badKinds))]
+		}
+		if r.Chance(15) {
+			kind = "hours-future"
 		}
 		if t, ok := g.makeTxn(P, kind); ok {
 			txns = append(txns, t)
@@ -748,7 +772,7 @@ func (g *genCtx) forged(P, F *node) {
 			}
 		}
 	}
-	sb := forgeBlock(P, txns, g.nextWhen(), uint64(r.Intn(3)), mut, secKey)
+	sb := forgeBlock(P, txns, when, uint64(r.Intn(3)), mut, secKey)
 	g.execBoth(&sb)
 }
 
